@@ -46,7 +46,7 @@ func (propC03) Gen(r *Rng, tier string) *World {
 	w.Prog = g.Program()
 	w.Cfg = g.C
 	w.Cfg.ViaDirect = r.P(0.3)
-	w.Cfg.DirStyle = r.Intn(4)
+	w.Cfg.DirStyle = r.Intn(6)
 	w.Cfg.Event = []string{"", "", "", "report", "debug"}[r.Intn(5)]
 	w.API = "eval"
 	first := r.Intn(16)
